@@ -161,6 +161,25 @@ def run(tier, seed):
                 src = "\n".join(lines) + "\n"
                 bmeta[cid] = (cpu, t, gap, src)
                 cases.append((cid, "imgmax=8192", src))
+    # operand family: every corpus form with a numeric operand, the operand replaced by a label that is defined behind
+    # the instruction (low in the address space: a value that fits every short form); the probes behind the instruction
+    # show whether it kept its pass-1 size
+    oprog = [{"k": "insn", "r": {"s": "fwd"}}, {"k": "label", "n": "after"}, {"k": "label", "n": "fwd"}]
+    ometa = {}
+    oforms = {}
+    for cpu, text in K.corpus(set(cpuinfo)):
+        if ":" not in text and K.NUM.search(text):
+            oforms.setdefault(cpu, [])
+            if text not in oforms[cpu]:
+                oforms[cpu].append(text)
+    for cpu, ts in sorted(oforms.items()):
+        pick = ts if tier == "thorough" else rnd.sample(ts, min(len(ts), 30))
+        for t in pick:
+            for pos, variants in K.probe_texts(t, ["fwd"]):
+                cid = "f.%s.%d.%d" % (cpu, ts.index(t), pos)
+                src = "\n".join([".%s" % cpu, ".org 0x10", "  " + variants[0], "after:", ".dc32 $, after, 0x%x" % MARK, "fwd:", ".dc32 $, fwd, 0x%x" % MARK]) + "\n"
+                ometa[cid] = (cpu, t, pos, src)
+                cases.append((cid, "imgmax=8192", src))
     obs = C.conform_parallel(vdir, "asm", cases, rd, "c02")
     byid = {o["case"]: o for o in obs}
     if len(byid) != len(cases):
@@ -197,6 +216,19 @@ def run(tier, seed):
             continue
         baccepted[cpu] = baccepted.get(cpu, 0) + 1
         events.append({"id": cid, "prog": bprog, "rule": dict(set=[], lt=0, short=0, long=0), "modelled": False, "obs": {"k": "ok", "probes": pr}})
+    oaccepted = {}
+    for cid, (cpu, t, pos, src) in ometa.items():
+        rec = byid[cid]
+        if rec.get("died"):
+            chk.report("src:" + src, "died on\n" + src, dict(source=src, observed=rec))
+            continue
+        if rec["r1"] != 0 or rec["r2"] != 0:
+            continue            # the form does not take a label there: C02 speaks about accepted programs
+        pr = probes(rec, oprog, cpuinfo[cpu]["endian"] == 1)
+        if pr is None:
+            continue
+        oaccepted[cpu] = oaccepted.get(cpu, 0) + 1
+        events.append({"id": cid, "prog": oprog, "rule": dict(set=[], lt=0, short=0, long=0), "modelled": False, "obs": {"k": "ok", "probes": pr}})
     oks = [e for e in events if e["obs"]["k"] == "ok" and not any(s["k"] == "scope" for s in e["prog"])]
     canaries = set()
     for e in rnd.sample(oks, min(24, len(oks))):
@@ -217,6 +249,13 @@ def run(tier, seed):
     stale = 0
     for cid, v in sorted(bad.items()):
         if cid in canaries:
+            continue
+        if cid in ometa:
+            cpu, t, pos, src = ometa[cid]
+            # (one class per CPU and operand shape: the mnemonics that share an addressing mode share its sizing code)
+            chk.report("TwoPass.OperandForm@%s:%s@%d" % (cpu, " ".join(K.shape(t).split()[1:]), pos),
+                       "labels %s are placed in pass 2 where they were not bound in pass 1 (.%s, `%s` with operand %d a label defined behind it)\n%s" % (v["drift"], cpu, t, pos, src),
+                       dict(source=src, cpu=cpu, drift=v.get("drift"), probes=[e for e in events if e["id"] == cid][0]["obs"]["probes"]))
             continue
         if cid in bmeta:
             cpu, t, gap, src = bmeta[cid]
@@ -256,7 +295,7 @@ def run(tier, seed):
 
     weak = [c[0] for c in CARRIERS if accepted.get(c[0], 0) < 50]
     chk.cov.update(dict(
-        evaluations=len(cases), branch_family=dict(programs=len(bmeta), accepted_per_cpu=baccepted),
+        evaluations=len(cases), branch_family=dict(programs=len(bmeta), accepted_per_cpu=baccepted), operand_family=dict(programs=len(ometa), accepted_per_cpu=oaccepted),
         distinct_nontrivial=len([p for p in progs if sum(1 for s in p if s["k"] in ("insn", "label")) >= 2]),
         rule="TLC enumerates every program of up to 3 statements over a 24-statement alphabet and of up to 4 (thorough 5) "
              "over an 11-statement alphabet with scopes (labels, "
